@@ -10,6 +10,8 @@
       save / load on every run (harness/c20_translate.py -> build/C20/SaveLoad_gen.v).  The semantics
       below runs them on an abstract object state (field -> val) for an arbitrary list of phase names,
       with the .npz storage as an oracle.
+      File names: the functions that save / load apply to the caller's file name are generated too;
+      the file system is a map from names to contents (several models saved side by side).
    2. surrogate fall-through.  For every getter of kawin/thermo/Surrogate.py the generated table holds
       the tested `...Models` dictionary, the callee on `self.therm` of the un-trained branch and the
       arguments it forwards.
@@ -449,6 +451,45 @@ Definition optional_diff_g : list string := [ "_recordedX"; "_recordedTime" ].
 
 (* a codec that behaves like numpy on the point the model distinguishes: None cannot be stored *)
 Definition npz_like {V} (d : dict V) : option (dict V) := if has_none V d then None else Some d.
+
+(* ------------------------------------------------------------------------------------------ *)
+(* 1b. file names.  GenericModel.save / load turn the name the caller gives into the name of the file
+       that is written / read; the two name functions are GENERATED from the ASTs of save and load.
+       The file system is a map from file names to file contents. *)
+Inductive namefn := NameId                          (* the name is used as it is *)
+                  | NameEnsureSuffix (suf : string). (* if not name.endswith(suf): name += suf *)
+
+Definition ends_with (suf s : string) : bool :=
+  Nat.leb (String.length suf) (String.length s)
+  && String.eqb (substring (String.length s - String.length suf) (String.length suf) s) suf.
+
+Definition apply_name (f : namefn) (n : string) : string :=
+  match f with
+  | NameId => n
+  | NameEnsureSuffix suf => if ends_with suf n then n else n ++ suf
+  end.
+
+Definition name_suffix (f : namefn) : string := match f with NameId => "" | NameEnsureSuffix suf => suf end.
+
+Definition namefn_eqb (f g : namefn) : bool :=
+  match f, g with
+  | NameId, NameId => true
+  | NameEnsureSuffix a, NameEnsureSuffix b => String.eqb a b
+  | _, _ => false
+  end.
+
+Section Files.
+  Variable D : Type.                               (* what a file holds *)
+  Definition fsys := string -> option D.
+  Definition fs_save (f : namefn) (fs : fsys) (name : string) (d : D) : fsys :=
+    fun k => if String.eqb k (apply_name f name) then Some d else fs k.
+  Definition fs_load (f : namefn) (fs : fsys) (name : string) : option D := fs (apply_name f name).
+  Fixpoint fs_saves (f : namefn) (fs : fsys) (l : list (string * D)) : fsys :=
+    match l with
+    | [] => fs
+    | (n, d) :: r => fs_saves f (fs_save f fs n d) r
+    end.
+End Files.
 
 (* ------------------------------------------------------------------------------------------ *)
 (* 2. un-trained fall-through of the surrogate getters *)
